@@ -547,6 +547,62 @@ Qed.
 
 End HashProofs.
 
+(* ---- hash: run level ---- *)
+
+Lemma remove_first_perm_compat x l l' : Permutation l l' -> Permutation (remove_first x l) (remove_first x l').
+Proof.
+  induction 1 as [|a l l' P IH|a b l|l l' l'' P1 IH1 P2 IH2]; cbn; auto.
+  - destruct (a =? x); auto.
+  - destruct (b =? x) eqn:Eb, (a =? x) eqn:Ea; auto.
+    + apply Z.eqb_eq in Eb, Ea. subst. auto.
+    + apply perm_swap.
+  - eapply Permutation_trans; eauto.
+Qed.
+
+Fixpoint hash_replay (ops : list hop) (rs : list result) (l : list Z) : list Z :=
+  match ops, rs with
+  | op :: ops', r :: rs' =>
+      hash_replay ops' rs' (match r, op with
+                            | Ok, HInsert key => key :: l
+                            | Ok, HRemove key => remove_first key l
+                            | _, _ => l
+                            end)
+  | _, _ => l
+  end.
+
+Lemma hash_replay_perm ops : forall rs l l', Permutation l l' -> Permutation (hash_replay ops rs l) (hash_replay ops rs l').
+Proof.
+  induction ops as [|op t IH]; intros [|r rs] l l' P; cbn; auto.
+  apply IH. destruct r; auto. destruct op; [apply perm_skip; auto | apply remove_first_perm_compat; auto].
+Qed.
+
+Section HashRun.
+Variable ok : nat -> bool.
+Variable primes : list Z.
+Hypothesis primes_pos : Forall (fun p => 0 < p) primes.
+
+(* whole scripts under any oracle: the keys in the table are, as a multiset, exactly what the operations that reported success
+   build - failed node allocations leave no trace and failed rehashes change nothing observable *)
+Theorem hash_run_keys ops : forall h k rs h' k',
+  hash_inv h -> hash_run ok primes ops h k = (rs, h', k') ->
+  Permutation (hash_keys h') (hash_replay ops rs (hash_keys h)).
+Proof.
+  induction ops as [|op t IH]; intros h k rs h' k' Hi E; cbn [hash_run] in E.
+  - inversion E; subst. cbn. apply Permutation_refl.
+  - destruct (hash_step ok primes op h k) as [[r h1] k1] eqn:S1.
+    destruct (hash_run ok primes t h1 k1) as [[rs2 h2] k2] eqn:S2. inversion E; subst; clear E.
+    destruct (hash_step_atomic ok primes primes_pos op h k r h1 k1 Hi S1) as [I1 [_ [NE OK]]].
+    pose proof (IH h1 k1 rs2 h' k' I1 S2) as P. cbn [hash_replay].
+    eapply Permutation_trans; [exact P|]. apply hash_replay_perm.
+    destruct r.
+    + destruct op as [key|key]; destruct (OK eq_refl) as [Q _]; [exact Q|].
+      replace (hash_keys h1) with (remove_first key (key :: hash_keys h1)) by (cbn; rewrite Z.eqb_refl; auto).
+      apply remove_first_perm_compat. exact Q.
+    + rewrite (NE ltac:(discriminate)). apply Permutation_refl.
+    + rewrite (NE ltac:(discriminate)). apply Permutation_refl.
+Qed.
+End HashRun.
+
 (* ---------------------------------------------------------------- ConstPool *)
 Definition tree_ext (t t' : list cnode) : Prop := exists s, t' = t ++ s.
 Definition trees_ext (ts ts' : list (list cnode)) : Prop :=
@@ -1409,6 +1465,73 @@ Proof.
   rewrite forallb_forall in F. auto.
 Qed.
 
+(* ---- whole runs of the RA stack allocator (round 5) ---- *)
+Definition raop_reg (op : raop) : nat := match op with RGet w | RAsMem w => w end.
+
+Lemma ra_step_mono op s k r s' k' :
+  ra_inv s -> raop_reg op < length (ra_home s) ->
+  ra_step ok op s k = (r, s', k') -> forall w, In w (ra_slots s) -> In w (ra_slots s').
+Proof.
+  intros I WL E w Hw. destruct op as [x|x]; cbn [ra_step raop_reg] in *.
+  - destruct (has_home s x) eqn:H.
+    + inversion E; subst; auto.
+    + destruct (ra_new_slot_spec x s k r s' k' I H WL E) as [_ [_ [_ [[_ [SL _]] | [_ [SL _]]]]]]; rewrite SL; auto.
+      apply in_or_app; auto.
+  - destruct (has_home s x) eqn:H.
+    + inversion E; subst; auto.
+    + destruct (ra_new_slot ok x s k) as [[r1 s1] k1] eqn:NS.
+      destruct (ra_new_slot_spec x s k r1 s1 k1 I H WL NS) as [_ [_ [_ [[_ [SL _]] | [_ [SL _]]]]]];
+        inversion E; subst; clear E; cbn [ra_slots]; rewrite SL; auto.
+      apply in_or_app; auto.
+Qed.
+
+(* Any script of tested creations (RGet) and work_reg_as_mem calls (RAsMem), any oracle: the invariant holds at the end, no register
+   ever loses its home, the referenced registers are exactly the old ones plus those named by RAsMem, one result per operation. *)
+Theorem ra_run_spec ops : forall n s k rs s' k',
+  ra_inv s -> length (ra_home s) = n -> Forall (fun op => raop_reg op < n) ops ->
+  ra_run ok ops s k = (rs, s', k') ->
+  ra_inv s' /\ length (ra_home s') = n /\ (forall w, has_home s w = true -> has_home s' w = true) /\
+  (forall w, In w (ra_refs s') <-> In w (ra_refs s) \/ In (RAsMem w) ops) /\ length rs = length ops.
+Proof.
+  induction ops as [|op t IH]; intros n s k rs s' k' I LN W E; cbn [ra_run] in E.
+  - inversion E; subst. split; [exact I|]. split; [reflexivity|]. split; [auto|]. split; [|reflexivity].
+    intros w; split; [auto|intros [X|[]]; exact X].
+  - destruct (ra_step ok op s k) as [[r s1] k1] eqn:S1. destruct (ra_run ok t s1 k1) as [[rs2 s2] k2] eqn:S2.
+    inversion E; subst; clear E. inversion W as [|? ? W1 W2]; subst.
+    assert (WL : match op with RGet w | RAsMem w => w < length (ra_home s) end) by (destruct op; exact W1).
+    destruct (ra_step_spec op s k r s1 k1 I WL S1) as [I1 [L1 SP]].
+    pose proof (ra_step_mono op s k r s1 k1 I W1 S1) as MO.
+    destruct (IH (length (ra_home s)) s1 k1 rs2 s' k' I1 L1 W2 S2) as [I2 [L2 [HM [RF LR]]]].
+    split; [exact I2|]. split; [exact L2|]. split; [|split].
+    + intros w Hw. apply HM. destruct I as [_ [A _]]. destruct I1 as [_ [B _]]. apply B. apply MO. apply A. exact Hw.
+    + intros w. rewrite RF. destruct op as [x|x].
+      * destruct SP as [R _]. rewrite R. cbn [In]. split; [intros [X|X]; auto|intros [X|[X|X]]; auto; discriminate].
+      * destruct SP as [_ R]. rewrite R. cbn [In]. split.
+        -- intros [[X|X]|X]; subst; auto.
+        -- intros [X|[X|X]]; auto; inversion X; auto.
+    + cbn [length]. rewrite LR. reflexivity.
+Qed.
+
+(* ... hence: whatever failed during the run, when the rewrite reports success every register named by work_reg_as_mem owns a
+   stack slot (no null slot is dereferenced), and when it reports an error some named register has none *)
+Theorem ra_run_rewrite_safe ops n s k rs s' k' :
+  ra_inv s -> length (ra_home s) = n -> Forall (fun op => raop_reg op < n) ops ->
+  ra_run ok ops s k = (rs, s', k') ->
+  (ra_rewrite s' = Ok -> forall w, In (RAsMem w) ops -> has_home s' w = true /\ In w (ra_slots s')) /\
+  (ra_rewrite s' <> Ok -> exists w, (In w (ra_refs s) \/ In (RAsMem w) ops) /\ has_home s' w = false).
+Proof.
+  intros I LN W E. destruct (ra_run_spec ops n s k rs s' k' I LN W E) as [I2 [_ [_ [RF _]]]]. split.
+  - intros R w Hw. assert (H : has_home s' w = true) by (apply (ra_rewrite_safe s' R); apply RF; auto).
+    split; [exact H|]. destruct I2 as [_ [A _]]. apply A. exact H.
+  - intros R. unfold ra_rewrite in R. destruct (forallb (has_home s') (ra_refs s')) eqn:F; [congruence|].
+    assert (X : exists w, In w (ra_refs s') /\ has_home s' w = false).
+    { clear -F. induction (ra_refs s') as [|a l IHl]; cbn in F; [discriminate|].
+      destruct (has_home s' a) eqn:HA; cbn in F.
+      - destruct (IHl F) as [w [A B]]. exists w. split; [right; exact A|exact B].
+      - exists a. split; [left; reflexivity|exact HA]. }
+    destruct X as [w [A B]]. exists w. split; [apply RF; exact A|exact B].
+Qed.
+
 End RaProofs.
 
 
@@ -1431,6 +1554,104 @@ Proof.
       * unfold has_home in HH. rewrite nth_overflow in HH by lia. discriminate.
     + intros HI. specialize (H2 w HI). apply andb_prop in H2. tauto.
   - intros w HI. specialize (H2 w HI). apply andb_prop in H2. destruct H2 as [L _]. apply Nat.ltb_lt in L. auto.
+Qed.
+
+Lemma NoDup_nodupb l : NoDup l -> nodupb l = true.
+Proof.
+  induction 1 as [|x t NI ND IH]; cbn; [reflexivity|]. rewrite IH, andb_true_r. apply negb_true_iff.
+  destruct (existsb (Nat.eqb x) t) eqn:E; [|reflexivity]. apply existsb_exists in E. destruct E as [y [Hy E]].
+  apply Nat.eqb_eq in E. subst. contradiction.
+Qed.
+
+(* ... and complete: the validator rejects ONLY states that violate the invariant (so a rejected dump of a real pass run is a real
+   violation, and ra_check decides ra_inv) *)
+Theorem ra_check_complete s : ra_inv s -> ra_check s = true.
+Proof.
+  intros [ND [HM BD]]. unfold ra_check. rewrite (NoDup_nodupb _ ND). cbn [andb]. apply andb_true_intro. split.
+  - apply forallb_forall. intros w HI. apply andb_true_intro. split; [apply Nat.ltb_lt; auto | apply HM; auto].
+  - apply forallb_forall. intros w _. destruct (has_home s w) eqn:HH; cbn [implb]; [|reflexivity].
+    apply existsb_exists. exists w. split; [apply HM; auto | apply Nat.eqb_refl].
+Qed.
+
+Lemma ras_init_inv n : ra_inv (ras_init n).
+Proof.
+  split; [constructor|]. split; [|intros w []]. intros w; unfold has_home, ras_init; cbn [ra_home ra_slots]. split; [|intros []].
+  intros H. destruct (le_lt_dec n w); [rewrite nth_overflow in H by (rewrite repeat_length; lia); discriminate |].
+  rewrite nth_repeat in H. discriminate.
+Qed.
+
+(* every state the model can reach from the initial one, under any oracle, is accepted by the validator that is applied to the
+   dumps of real pass runs: a rejected dump is a state the model cannot reach *)
+Theorem ra_reachable_checked ok ops n k rs s' k' :
+  Forall (fun op => raop_reg op < n) ops -> ra_run ok ops (ras_init n) k = (rs, s', k') -> ra_check s' = true.
+Proof.
+  intros W E. apply ra_check_complete.
+  refine (proj1 (ra_run_spec ok ops n (ras_init n) k rs s' k' (ras_init_inv n) _ W E)).
+  unfold ras_init; cbn [ra_home]. apply repeat_length.
+Qed.
+
+(* ---- the failure-free run never reports an error (round 5) ---- *)
+Lemma ra_slots_bounded s : ra_inv s -> length (ra_slots s) <= length (ra_home s).
+Proof.
+  intros [ND [_ BD]]. rewrite <- (seq_length (length (ra_home s)) 0). apply NoDup_incl_length; [exact ND|].
+  intros w Hw. apply in_seq. specialize (BD w Hw). lia.
+Qed.
+
+Lemma ra_new_slot_all_ok w s k r s' k' :
+  ra_inv s -> (Z.of_nat (length (ra_home s)) + 1 < max_items)%Z ->
+  ra_new_slot all_ok w s k = (r, s', k') -> r = Ok.
+Proof.
+  intros I B E. pose proof (ra_slots_bounded s I) as LB.
+  unfold ra_new_slot, vec_reserve_one, vec_reserve_grow, vec_reserve_bytes, request, all_ok, vsize in E. cbn [v_items v_cap] in E.
+  rewrite map_length in E.
+  destruct (Z.of_nat (length (ra_slots s)) =? ra_cap s)%Z.
+  - destruct (Z.of_nat (length (ra_slots s)) + 1 <=? ra_cap s)%Z; [inversion E; reflexivity|].
+    destruct (max_items <=? Z.of_nat (length (ra_slots s)) + 1)%Z eqn:M; [apply Z.leb_le in M; lia|].
+    inversion E; reflexivity.
+  - inversion E; reflexivity.
+Qed.
+
+Lemma ra_step_all_ok op s k r s' k' :
+  ra_inv s -> raop_reg op < length (ra_home s) -> (Z.of_nat (length (ra_home s)) + 1 < max_items)%Z ->
+  ra_step all_ok op s k = (r, s', k') -> r = Ok /\ has_home s' (raop_reg op) = true.
+Proof.
+  intros I WL B E. destruct op as [w|w]; cbn [ra_step raop_reg] in *.
+  - destruct (has_home s w) eqn:H; [inversion E; subst; auto|].
+    pose proof (ra_new_slot_all_ok w s k r s' k' I B E) as RO.
+    destruct (ra_new_slot_spec all_ok w s k r s' k' I H WL E) as [_ [_ [_ [[_ [_ HH]] | [X _]]]]]; [auto|congruence].
+  - destruct (has_home s w) eqn:H; [inversion E; subst; auto|].
+    destruct (ra_new_slot all_ok w s k) as [[r1 s1] k1] eqn:NS.
+    pose proof (ra_new_slot_all_ok w s k r1 s1 k1 I B NS) as RO.
+    destruct (ra_new_slot_spec all_ok w s k r1 s1 k1 I H WL NS) as [_ [_ [_ [[_ [_ HH]] | [X _]]]]]; [|congruence].
+    inversion E; subst. split; [reflexivity|]. exact HH.
+Qed.
+
+(* When no request fails (and the register count is below the 32-bit size limit of the slot vector), every operation reports
+   success and the rewrite succeeds: errors of the home-slot machinery are never spurious. *)
+Theorem ra_run_failure_free ops : forall n s k rs s' k',
+  ra_inv s -> length (ra_home s) = n -> (Z.of_nat n + 1 < max_items)%Z -> Forall (fun op => raop_reg op < n) ops ->
+  (forall w, In w (ra_refs s) -> has_home s w = true) ->
+  ra_run all_ok ops s k = (rs, s', k') ->
+  Forall (fun r => r = Ok) rs /\ ra_rewrite s' = Ok.
+Proof.
+  induction ops as [|op t IH]; intros n s k rs s' k' I LN B W RH E; cbn [ra_run] in E.
+  - inversion E; subst. split; [constructor|]. unfold ra_rewrite.
+    replace (forallb (has_home s') (ra_refs s')) with true; [reflexivity|]. symmetry. apply forallb_forall. exact RH.
+  - destruct (ra_step all_ok op s k) as [[r s1] k1] eqn:S1. destruct (ra_run all_ok t s1 k1) as [[rs2 s2] k2] eqn:S2.
+    inversion E; subst; clear E. inversion W as [|? ? W1 W2]; subst.
+    assert (WL : match op with RGet w | RAsMem w => w < length (ra_home s) end) by (destruct op; exact W1).
+    destruct (ra_step_spec all_ok op s k r s1 k1 I WL S1) as [I1 [L1 SP]].
+    pose proof (ra_step_mono all_ok op s k r s1 k1 I W1 S1) as MO.
+    destruct (ra_step_all_ok op s k r s1 k1 I W1 B S1) as [RO HH].
+    assert (RH1 : forall w, In w (ra_refs s1) -> has_home s1 w = true).
+    { assert (KEEP : forall w, has_home s w = true -> has_home s1 w = true).
+      { intros w Hw. destruct I as [_ [A _]]. destruct I1 as [_ [A1 _]]. apply A1. apply MO. apply A. exact Hw. }
+      intros w Hw. destruct op as [x|x]; cbn [raop_reg] in HH.
+      - destruct SP as [R _]. rewrite R in Hw. auto.
+      - destruct SP as [_ R]. rewrite R in Hw. destruct Hw as [<-|Hw]; auto. }
+    rewrite <- L1 in B, W2.
+    destruct (IH (length (ra_home s1)) s1 k1 rs2 s' k' I1 eq_refl B W2 RH1 S2) as [A C].
+    split; [constructor; [exact RO|exact A]|exact C].
 Qed.
 
 (* without the test (the code before f186c27): two failed creations leave a referenced register without a home *)
@@ -1575,7 +1796,402 @@ Theorem vm_dual_leaky_refuted :
   exists okv s, let '(a, s', _) := vm_dual_leaky okv s 0 in a = None /\ vs_views s' <> vs_views s.
 Proof. exists (fun k => (k <? 1)%nat), vms_init. vm_compute. split; [reflexivity | discriminate]. Qed.
 
+(* ---- VirtMem views: accounting over whole runs ---- *)
+
+Definition handle_ids (h : option (list nat)) : list nat := match h with Some ids => ids | None => [] end.
+Definition live_ids (s : vms) : list nat := concat (map handle_ids (vs_handles s)).
+
+(* accounting invariant of a whole run: the live views are exactly the views of the handles that have not been released, each
+   once (nothing leaked, nothing lost, nothing double-counted), and fresh ids stay fresh *)
+Definition vms_acct (s : vms) : Prop :=
+  NoDup (vs_views s) /\ Permutation (vs_views s) (live_ids s) /\ (forall x, In x (vs_views s) -> x < vs_next s).
+
+Lemma nodup_app_inv {A} (l1 l2 : list A) : NoDup (l1 ++ l2) -> NoDup l1 /\ NoDup l2 /\ (forall x, In x l1 -> ~ In x l2).
+Proof.
+  induction l1 as [|a t IH]; cbn; intros H.
+  - repeat split; auto. constructor.
+  - inversion H as [|? ? N1 N2]; subst. destruct (IH N2) as [I1 [I2 I3]]. repeat split; auto.
+    + constructor; auto. intros X. apply N1. apply in_or_app. left; auto.
+    + intros x [<-|Hx] Hi; [apply N1; apply in_or_app; right; auto | apply (I3 x); auto].
+Qed.
+
+Lemma nodup_app_intro {A} (l1 l2 : list A) : NoDup l1 -> NoDup l2 -> (forall x, In x l1 -> ~ In x l2) -> NoDup (l1 ++ l2).
+Proof.
+  induction l1 as [|a t IH]; cbn; intros H1 H2 D; auto.
+  inversion H1 as [|? ? N1 N2]; subst. constructor.
+  - intros X. apply in_app_or in X. destruct X as [X|X]; [auto | apply (D a); auto].
+  - apply IH; auto.
+Qed.
+
+Lemma perm_filter {A} (f : A -> bool) l l' : Permutation l l' -> Permutation (filter f l) (filter f l').
+Proof.
+  induction 1; cbn; auto.
+  - destruct (f x); auto.
+  - destruct (f x), (f y); auto. apply perm_swap.
+  - eapply Permutation_trans; eauto.
+Qed.
+
+Lemma live_ids_push s h : live_ids (push_handle h s) = live_ids s ++ handle_ids h.
+Proof. unfold live_ids, push_handle. cbn. rewrite map_app, concat_app. cbn. rewrite app_nil_r. reflexivity. Qed.
+
+Lemma concat_upd_none (hs : list (option (list nat))) i ids :
+  nth i hs None = Some ids ->
+  exists A B, concat (map handle_ids hs) = A ++ ids ++ B /\ concat (map handle_ids (upd_nth i (fun _ => None) hs)) = A ++ B.
+Proof.
+  revert i; induction hs as [|h t IH]; intros [|i] H; cbn in *; try discriminate.
+  - subst. exists [], (concat (map handle_ids t)). cbn. auto.
+  - destruct (IH i H) as [A [B [E1 E2]]]. exists (handle_ids h ++ A), B. rewrite E1, E2, !app_assoc. auto.
+Qed.
+
+Lemma remove_ids_middle ids A B : NoDup (A ++ ids ++ B) -> remove_ids ids (A ++ ids ++ B) = A ++ B.
+Proof.
+  intros ND. unfold remove_ids. rewrite !filter_app.
+  assert (FA : forall l, (forall x, In x l -> ~ In x ids) -> filter (fun x => negb (existsb (Nat.eqb x) ids)) l = l).
+  { induction l as [|a t IH]; intros H; cbn; auto.
+    assert (E : existsb (Nat.eqb a) ids = false).
+    { destruct (existsb (Nat.eqb a) ids) eqn:X; auto. apply existsb_exists in X. destruct X as [y [Hy Ey]]. apply Nat.eqb_eq in Ey. subst.
+      exfalso. apply (H y); [left; auto | auto]. }
+    rewrite E. cbn. f_equal. apply IH. intros x Hx. apply H. right; auto. }
+  assert (FI : filter (fun x => negb (existsb (Nat.eqb x) ids)) ids = []).
+  { assert (G : forall m, (forall x, In x m -> In x ids) -> filter (fun x => negb (existsb (Nat.eqb x) ids)) m = []).
+    { induction m as [|a t IH]; intros H; cbn; auto.
+      assert (E : existsb (Nat.eqb a) ids = true) by (apply existsb_exists; exists a; split; [apply H; left; auto | apply Nat.eqb_refl]).
+      rewrite E. cbn. apply IH. intros x Hx. apply H. right; auto. }
+    apply G. auto. }
+  rewrite FI. cbn.
+  destruct (nodup_app_inv A (ids ++ B) ND) as [_ [NB DA]]. destruct (nodup_app_inv ids B NB) as [_ [_ DB]].
+  rewrite (FA A), (FA B); auto.
+  - intros x Hx Hi. apply (DB x); auto.
+  - intros x Hx Hi. apply (DA x Hx). apply in_or_app. left; auto.
+Qed.
+
+Section VmAcct.
+Variable okv : nat -> bool.
+Variable okh : nat -> bool.
+
+Lemma acct_add s ids :
+  vms_acct s -> NoDup ids -> (forall x, In x ids -> vs_next s <= x) ->
+  forall s', vs_views s' = vs_views s ++ ids -> vs_handles s' = vs_handles s ++ [Some ids] ->
+  (forall x, In x ids -> x < vs_next s') -> vs_next s <= vs_next s' -> vms_acct s'.
+Proof.
+  intros [ND [P B]] NI F s' V H BN LE. split; [|split].
+  - rewrite V. apply nodup_app_intro; auto. intros x Hx Hi. apply B in Hx. apply F in Hi. lia.
+  - unfold live_ids. rewrite V, H, map_app, concat_app. cbn. rewrite app_nil_r. apply Permutation_app_tail. exact P.
+  - rewrite V. intros x Hx. apply in_app_or in Hx. destruct Hx as [Hx|Hx]; [apply B in Hx; lia | auto].
+Qed.
+
+Lemma acct_none s s' :
+  vms_acct s -> vs_views s' = vs_views s -> vs_handles s' = vs_handles s ++ [None] -> vs_next s <= vs_next s' -> vms_acct s'.
+Proof.
+  intros [ND [P B]] V H LE. split; [|split].
+  - rewrite V. auto.
+  - unfold live_ids. rewrite V, H, map_app, concat_app. cbn. rewrite app_nil_r. exact P.
+  - rewrite V. intros x Hx. apply B in Hx. lia.
+Qed.
+
+Lemma nodup_filter {A} (f : A -> bool) l : NoDup l -> NoDup (filter f l).
+Proof.
+  induction 1 as [|a t N1 N2 IH]; cbn; [constructor|]. destruct (f a); auto. constructor; auto.
+  intros X. apply filter_In in X. tauto.
+Qed.
+
+Lemma acct_release s i ids s' :
+  vms_acct s -> nth i (vs_handles s) None = Some ids ->
+  vs_views s' = remove_ids ids (vs_views s) -> vs_handles s' = upd_nth i (fun _ => None) (vs_handles s) -> vs_next s' = vs_next s ->
+  vms_acct s'.
+Proof.
+  intros [ND [P B]] H V HH NX. destruct (concat_upd_none (vs_handles s) i ids H) as [A [Bq [E1 E2]]].
+  unfold live_ids in P. rewrite E1 in P.
+  assert (ND2 : NoDup (A ++ ids ++ Bq)) by (eapply Permutation_NoDup; eauto).
+  split; [|split].
+  - rewrite V. apply nodup_filter. auto.
+  - unfold live_ids. rewrite V, HH, E2. rewrite <- (remove_ids_middle ids A Bq ND2). apply perm_filter. exact P.
+  - rewrite V, NX. intros x Hx. apply filter_In in Hx. apply B. tauto.
+Qed.
+
+(* Every operation under every pair of oracles keeps the accounting invariant: whatever fails, whatever order things are
+   released in, the live views are exactly the views of the handles not yet released.  In particular (vm_run_all_released) after
+   every handle has been released no view is left. *)
+Ltac fin_add :=
+  cbn [vs_views vs_next vs_handles vs_heap push_handle app]; eauto; try lia; try reflexivity;
+  try (repeat constructor; cbn; intros X; repeat (destruct X as [X|X]; try lia); lia);
+  try (intros x Hx; cbn in Hx; repeat (destruct Hx as [Hx|Hx]; try (subst; lia)); tauto);
+  try (rewrite <- app_assoc; reflexivity).
+
+Ltac fin_none B :=
+  cbn [vs_views vs_next vs_handles vs_heap push_handle]; eauto; try lia;
+  try (rewrite <- ?app_assoc; cbn [app];
+       first [ rewrite (remove_ids_app_fresh [_] _) | rewrite (remove_ids_app_fresh [_; _] _) ]; auto;
+       intros x Hx Hin; cbn in Hx; apply B in Hin; repeat (destruct Hx as [Hx|Hx]; try (subst; lia)); tauto).
+
+Theorem vm_step_acct op s kv kh r s' kv' kh' :
+  vms_acct s -> vm_step okv okh op s kv kh = (r, s', kv', kh') -> vms_acct s'.
+Proof.
+  intros I E. pose proof I as [ND [P B]].
+  destruct op as [| |i|dual|i]; cbn [vm_step] in E.
+  - unfold vm_map in E. destruct (okv kv); inversion E; subst; clear E.
+    + eapply (acct_add s [vs_next s]); fin_add.
+    + eapply acct_none; fin_none B.
+  - unfold vm_dual, vm_map in E. destruct (okv kv).
+    + cbn [vs_views vs_next vs_heap vs_handles] in E. destruct (okv (S kv)); inversion E; subst; clear E.
+      * eapply (acct_add s [vs_next s; S (vs_next s)]); fin_add.
+      * eapply acct_none; fin_none B.
+    + inversion E; subst; clear E. eapply acct_none; fin_none B.
+  - destruct (nth i (vs_handles s) None) as [ids|] eqn:H; inversion E; subst; clear E; [|exact I].
+    eapply acct_release; eauto.
+  - destruct dual.
+    + unfold vm_dual, vm_map in E. destruct (okv kv).
+      * cbn [vs_views vs_next vs_heap vs_handles] in E. destruct (okv (S kv)).
+        -- destruct (okh kh); inversion E; subst; clear E.
+           ++ eapply (acct_add s [vs_next s; S (vs_next s)]); fin_add.
+           ++ eapply acct_none; fin_none B.
+        -- inversion E; subst; clear E. eapply acct_none; fin_none B.
+      * inversion E; subst; clear E. eapply acct_none; fin_none B.
+    + unfold vm_map in E. destruct (okv kv).
+      * destruct (okh kh); inversion E; subst; clear E.
+        -- eapply (acct_add s [vs_next s]); fin_add.
+        -- eapply acct_none; fin_none B.
+      * inversion E; subst; clear E. eapply acct_none; fin_none B.
+  - destruct (nth i (vs_handles s) None) as [ids|] eqn:H; inversion E; subst; clear E; [|exact I].
+    eapply acct_release; eauto.
+Qed.
+
+Fixpoint vm_run (ops : list vmop) (s : vms) (kv kh : nat) : list result * vms * nat * nat :=
+  match ops with
+  | [] => ([], s, kv, kh)
+  | op :: t =>
+      let '(r, s1, kv1, kh1) := vm_step okv okh op s kv kh in
+      let '(rs, s2, kv2, kh2) := vm_run t s1 kv1 kh1 in (r :: rs, s2, kv2, kh2)
+  end.
+
+Theorem vm_run_acct ops : forall s kv kh rs s' kv' kh',
+  vms_acct s -> vm_run ops s kv kh = (rs, s', kv', kh') -> vms_acct s'.
+Proof.
+  induction ops as [|op t IH]; intros s kv kh rs s' kv' kh' I E; cbn [vm_run] in E.
+  - inversion E; subst. exact I.
+  - destruct (vm_step okv okh op s kv kh) as [[[r s1] kv1] kh1] eqn:S1.
+    destruct (vm_run t s1 kv1 kh1) as [[[rs2 s2] kv2] kh2] eqn:S2. inversion E; subst.
+    eapply IH; [eapply vm_step_acct; eauto | eauto].
+Qed.
+
+(* whole scripts from the empty state, any oracles: once every handle has been released (or never existed because its
+   allocation failed) no view is left *)
+Theorem vm_run_all_released ops rs s' kv' kh' :
+  vm_run ops vms_init 0 0 = (rs, s', kv', kh') ->
+  Forall (fun h => h = None) (vs_handles s') -> vs_views s' = [].
+Proof.
+  intros E F. assert (I0 : vms_acct vms_init) by (split; [constructor | split; [apply perm_nil | intros x []]]).
+  destruct (vm_run_acct ops _ _ _ _ _ _ _ I0 E) as [_ [P _]].
+  assert (L : live_ids s' = []).
+  { unfold live_ids. induction (vs_handles s') as [|h t IH]; cbn; auto. inversion F; subst. cbn. auto. }
+  rewrite L in P. apply Permutation_sym, Permutation_nil in P. exact P.
+Qed.
+
+End VmAcct.
+
 Local Open Scope Z_scope.
+
+(* ---------------------------------------------------------------- success under any oracle = failure-free step *)
+
+Section FailureFree.
+Variable ok : nat -> bool.
+
+Ltac all_ifs :=
+  repeat match goal with
+         | |- context [if ?c then _ else _] => destruct c
+         | |- context [match ho_fixup_pool ?h with _ => _ end] => destruct (ho_fixup_pool h)
+         | |- context [match ho_labels ?h with _ => _ end] => destruct (ho_labels h)
+         | |- context [match ss_addrtab ?s with _ => _ end] => destruct (ss_addrtab s)
+         end.
+
+(* an operation that reports success under ANY oracle is, state and request counter included, the step of the failure-free run *)
+Theorem str_step_ok_failure_free op s k s' k' :
+  str_step ok op s k = (Ok, s', k') -> str_step all_ok op s k = (Ok, s', k').
+Proof.
+  destruct op; cbn [str_step]; unfold str_prepare_append, str_prepare_assign, str_assign_storage, all_ok; all_ifs; intros E; try discriminate; auto.
+Qed.
+
+Lemma new_section_ok_ff order s k s' k' :
+  new_section ok order s k = (Ok, s', k') -> new_section all_ok order s k = (Ok, s', k').
+Proof.
+  unfold new_section, vec_reserve_one, vec_reserve_grow, vec_reserve_bytes, request, all_ok; all_ifs; intros E; try discriminate; auto.
+Qed.
+
+Lemma new_reloc_ok_ff ty h k h' k' :
+  new_reloc ok ty h k = (Ok, h', k') -> new_reloc all_ok ty h k = (Ok, h', k').
+Proof.
+  unfold new_reloc, vec_reserve_one, vec_reserve_grow, vec_reserve_bytes, request, all_ok; all_ifs; intros E; try discriminate; auto.
+Qed.
+
+Lemma add_address_ok_ff addr s k s' k' :
+  add_address ok addr s k = (Ok, s', k') -> add_address all_ok addr s k = (Ok, s', k').
+Proof.
+  unfold add_address. destruct (existsb (Z.eqb addr) (ss_entries s)); auto.
+  destruct (ss_addrtab s).
+  - unfold request, all_ok. destruct (ok k); intros E; try discriminate; auto.
+  - destruct (new_section ok addrtab_order s k) as [[r s1] k1] eqn:NS. destruct r.
+    + rewrite (new_section_ok_ff _ _ _ _ _ NS). unfold request, all_ok. destruct (ok k1); intros E; try discriminate; auto.
+    + intros E; discriminate.
+    + intros E; discriminate.
+Qed.
+
+Theorem holder2_step_ok_failure_free op h k h' k' :
+  holder2_step ok true op h k = (Ok, h', k') -> holder2_step all_ok true op h k = (Ok, h', k').
+Proof.
+  destruct op as [o|order|addr|addr]; cbn [holder2_step].
+  - destruct (holder_step ok true o (h2_base h) k) as [[r b] k1] eqn:S. intros E. inversion E; subst.
+    rewrite (holder_step_ok_failure_free ok o (h2_base h) k b k' S). reflexivity.
+  - destruct (new_section ok order (h2_sects h) k) as [[r s] k1] eqn:S. intros E. inversion E; subst.
+    rewrite (new_section_ok_ff _ _ _ _ _ S). reflexivity.
+  - destruct (add_address ok addr (h2_sects h) k) as [[r s] k1] eqn:S. intros E. inversion E; subst.
+    rewrite (add_address_ok_ff _ _ _ _ _ S). reflexivity.
+  - unfold call_abs. destruct (new_reloc ok 5 (h2_base h) k) as [[r b1] k1] eqn:NR. destruct r; try (intros E; discriminate).
+    rewrite (new_reloc_ok_ff _ _ _ _ _ NR).
+    destruct (add_address ok addr (h2_sects h) k1) as [[r2 s2] k2] eqn:AA. destruct r2; try (intros E; discriminate).
+    rewrite (add_address_ok_ff _ _ _ _ _ AA). auto.
+Qed.
+
+Theorem vm_step_ok_failure_free okh op s kv kh s' kv' kh' :
+  vm_step ok okh op s kv kh = (Ok, s', kv', kh') -> vm_step all_ok all_ok op s kv kh = (Ok, s', kv', kh').
+Proof.
+  destruct op as [| |i|dual|i]; cbn [vm_step]; unfold vm_dual, vm_map, all_ok;
+    repeat match goal with
+           | |- context [if ?c then _ else _] => destruct c
+           | |- context [match nth ?i ?l None with _ => _ end] => destruct (nth i l None)
+           end; intros E; try discriminate; auto.
+Qed.
+End FailureFree.
+
+(* VirtMem / JitAllocator blocks: when neither mmap nor malloc fails no operation reports kOutOfMemory (errors are never
+   spurious), for single steps and whole scripts *)
+Lemma vm_step_all_ok_never_oom op s kv kh r s' kv' kh' :
+  vm_step all_ok all_ok op s kv kh = (r, s', kv', kh') -> r <> Oom.
+Proof.
+  destruct op as [| |i|dual|i]; cbn [vm_step]; unfold vm_dual, vm_map, all_ok;
+    repeat match goal with
+           | |- context [if ?c then _ else _] => destruct c
+           | |- context [match nth ?i ?l None with _ => _ end] => destruct (nth i l None)
+           end; intros E; inversion E; discriminate.
+Qed.
+
+Theorem vm_run_all_ok_never_oom ops : forall s kv kh rs s' kv' kh',
+  vm_run all_ok all_ok ops s kv kh = (rs, s', kv', kh') -> ~ In Oom rs.
+Proof.
+  induction ops as [|op t IH]; intros s kv kh rs s' kv' kh' E; cbn [vm_run] in E.
+  - inversion E; subst. intros [].
+  - destruct (vm_step all_ok all_ok op s kv kh) as [[[r s1] kv1] kh1] eqn:S1.
+    destruct (vm_run all_ok all_ok t s1 kv1 kh1) as [[[rs2 s2] kv2] kh2] eqn:S2.
+    inversion E; subst; clear E. intros [F|F].
+    + exact (vm_step_all_ok_never_oom _ _ _ _ _ _ _ _ S1 F).
+    + exact (IH _ _ _ _ _ _ _ S2 F).
+Qed.
+
+(* ---------------------------------------------------------------- run level: String, Builder *)
+
+Section RunLevel.
+Variable ok : nat -> bool.
+
+Fixpoint str_run (ops : list sop) (s : str) (k : nat) : list result * str * nat :=
+  match ops with
+  | [] => ([], s, k)
+  | op :: t => let '(r, s1, k1) := str_step ok op s k in let '(rs, s2, k2) := str_run t s1 k1 in (r :: rs, s2, k2)
+  end.
+
+Fixpoint str_replay (ops : list sop) (rs : list result) (l : list Z) : list Z :=
+  match ops, rs with
+  | op :: ops', r :: rs' => str_replay ops' rs' (match r with Ok => str_spec op l | _ => l end)
+  | _, _ => l
+  end.
+
+(* String, whole scripts under any heap oracle: the final characters are what the oracle-free specification gives for exactly the
+   operations that reported success; the invariant holds at the end; at most one malloc per operation *)
+Theorem str_run_failed_ops_vanish ops : forall s k rs s' k',
+  Forall sop_wf ops -> str_inv s -> str_run ops s k = (rs, s', k') ->
+  st_chars s' = str_replay ops rs (st_chars s) /\ str_inv s' /\ length rs = length ops /\ ~ In Invalid rs /\ (k <= k' <= k + length ops)%nat.
+Proof.
+  induction ops as [|op t IH]; intros s k rs s' k' W I E; cbn [str_run] in E.
+  - inversion E; subst. cbn. split; [reflexivity|]. split; [exact I|]. split; [reflexivity|]. split; [intros []|lia].
+  - destruct (str_step ok op s k) as [[r s1] k1] eqn:S1. destruct (str_run t s1 k1) as [[rs2 s2] k2] eqn:S2.
+    inversion E; subst; clear E. inversion W; subst.
+    destruct (str_step_atomic ok op s k r s1 k1 H1 I S1) as [Hk [NI [I1 [HO HK]]]].
+    destruct (IH s1 k1 rs2 s' k' H2 I1 S2) as [A [B [C [D K]]]].
+    cbn [str_replay length]. split; [|split; [exact B|split; [lia|split; [|lia]]]].
+    + rewrite A. destruct r; [rewrite HK by auto; auto | rewrite HO by auto; auto | congruence].
+    + intros [F|F]; [congruence|auto].
+Qed.
+
+Fixpoint builder_run (ops : list bop) (h : holder2) (b : bld) (k : nat) : list result * holder2 * bld * nat :=
+  match ops with
+  | [] => ([], h, b, k)
+  | op :: t => let '(r, h1, b1, k1) := builder_step ok op h b k in let '(rs, h2, b2, k2) := builder_run t h1 b1 k1 in (r :: rs, h2, b2, k2)
+  end.
+
+Fixpoint bld_replay (ops : list bop) (rs : list result) (c : blist) : blist :=
+  match ops, rs with
+  | op :: ops', r :: rs' => bld_replay ops' rs' (match r with Ok => bld_spec op c | _ => c end)
+  | _, _ => c
+  end.
+
+(* Builder, whole scripts under any oracle: node list, cursor and bound labels at the end are what the oracle-free specification
+   gives for exactly the operations that reported success (sections of the holder are never touched by Builder operations) *)
+Theorem builder_run_failed_ops_vanish ops : forall h b k rs h' b' k',
+  builder_run ops h b k = (rs, h', b', k') ->
+  bld_list b' = bld_replay ops rs (bld_list b) /\ h2_sects h' = h2_sects h /\ length rs = length ops.
+Proof.
+  induction ops as [|op t IH]; intros h b k rs h' b' k' E; cbn [builder_run] in E.
+  - inversion E; subst. cbn. auto.
+  - destruct (builder_step ok op h b k) as [[[r h1] b1] k1] eqn:S1. destruct (builder_run t h1 b1 k1) as [[[rs2 h2] b2] k2] eqn:S2.
+    inversion E; subst; clear E.
+    destruct (builder_step_atomic ok op h b k r h1 b1 k1 S1) as [NE [_ OKc]].
+    destruct (IH h1 b1 k1 rs2 h' b' k' S2) as [A [B C]].
+    cbn [bld_replay length]. destruct r.
+    + destruct (OKc eq_refl) as [L [SE _]]. rewrite A, L, B, SE. auto.
+    + destruct (NE ltac:(discriminate)) as [L [SE _]]. rewrite A, L, B, SE. auto.
+    + destruct (NE ltac:(discriminate)) as [L [SE _]]. rewrite A, L, B, SE. auto.
+Qed.
+End RunLevel.
+
+(* String: when no malloc fails every operation reports success (errors are never spurious) and the final characters are the
+   oracle-free specification folded over ALL operations *)
+Lemma str_step_all_ok op s k r s' k' : str_step all_ok op s k = (r, s', k') -> r = Ok.
+Proof.
+  destruct op; cbn [str_step]; unfold str_prepare_append, str_prepare_assign, str_assign_storage, all_ok;
+    repeat match goal with |- context [if ?c then _ else _] => destruct c end; intros E; inversion E; reflexivity.
+Qed.
+
+Theorem str_run_all_ok ops : forall s k rs s' k',
+  Forall sop_wf ops -> str_inv s -> str_run all_ok ops s k = (rs, s', k') ->
+  Forall (fun r => r = Ok) rs /\ st_chars s' = fold_left (fun l op => str_spec op l) ops (st_chars s).
+Proof.
+  induction ops as [|op t IH]; intros s k rs s' k' W I E; cbn [str_run] in E.
+  - inversion E; subst. split; [constructor|reflexivity].
+  - destruct (str_step all_ok op s k) as [[r s1] k1] eqn:S1. destruct (str_run all_ok t s1 k1) as [[rs2 s2] k2] eqn:S2.
+    inversion E; subst; clear E. inversion W; subst.
+    pose proof (str_step_all_ok op s k r s1 k1 S1) as RO.
+    destruct (str_step_atomic all_ok op s k r s1 k1 H1 I S1) as [_ [_ [I1 [_ HK]]]].
+    destruct (IH s1 k1 rs2 s' k' H2 I1 S2) as [A B].
+    split; [constructor; [exact RO|exact A]|]. cbn [fold_left]. rewrite B, (HK RO). reflexivity.
+Qed.
+
+(* ArenaHash: when no request fails, no insert reports kOutOfMemory (for any prime table); errors are never spurious *)
+Lemma hash_step_all_ok_never_oom primes op h k r h' k' : hash_step all_ok primes op h k = (r, h', k') -> r <> Oom.
+Proof.
+  destruct op as [key|key]; cbn [hash_step]; unfold request, all_ok.
+  - match goal with |- context [hash_insert_node ?o ?p ?a ?b ?c] => destruct (hash_insert_node o p a b c) as [h1 k2] end.
+    intros E; inversion E; discriminate.
+  - destruct (hash_get h key); intros E; inversion E; discriminate.
+Qed.
+
+Theorem hash_run_all_ok_never_oom primes ops : forall h k rs h' k',
+  hash_run all_ok primes ops h k = (rs, h', k') -> ~ In Oom rs.
+Proof.
+  induction ops as [|op t IH]; intros h k rs h' k' E; cbn [hash_run] in E.
+  - inversion E; subst. intros [].
+  - destruct (hash_step all_ok primes op h k) as [[r h1] k1] eqn:S1. destruct (hash_run all_ok primes t h1 k1) as [[rs2 h2] k2] eqn:S2.
+    inversion E; subst; clear E. intros [F|F].
+    + exact (hash_step_all_ok_never_oom _ _ _ _ _ _ _ S1 F).
+    + exact (IH _ _ _ _ _ S2 F).
+Qed.
 
 Lemma primes_pos_of_forallb l : forallb (fun p => 0 <? p) l = true -> Forall (fun p => 0 < p) l.
 Proof.
